@@ -668,3 +668,48 @@ Proof.
   - apply find_some in EF. destruct EF as [I C]. split; [exact I|apply entry_covers_spec; exact C].
   - right. intros e I C. apply entry_covers_spec in C. rewrite (find_none _ _ EF e I) in C. discriminate.
 Qed.
+
+(** ** [authority_matches_sni] and the strict decision *)
+Lemma eq_lower_left_spec a s : length a = length s -> (eq_lower_left a s = true <-> map lower a = s).
+Proof.
+  revert s; induction a as [|x a IH]; destruct s as [|y s]; cbn [eq_lower_left map length]; intros L; try discriminate.
+  - split; reflexivity.
+  - injection L as L. rewrite andb_true_iff, N.eqb_eq, (IH s L).
+    split; [intros [-> ->]; reflexivity|intros H; inversion H; auto].
+Qed.
+
+Lemma authority_matches_sni_spec a s :
+  authority_matches_sni a s = true <-> map lower (strip_port a) = s.
+Proof.
+  unfold authority_matches_sni. destruct (Nat.eqb (length (strip_port a)) (length s)) eqn:E.
+  - apply Nat.eqb_eq in E. apply eq_lower_left_spec; exact E.
+  - apply Nat.eqb_neq in E. split; [discriminate|]. intros H. exfalso. apply E. rewrite <- H, map_length. reflexivity.
+Qed.
+
+Lemma strict_decision_spec strict sni names a :
+  strict_decision strict sni names a = true ->
+  strict = false \/ sni = None \/
+  (exists ns e, names = Some ns /\ In e ns /\ covers_spec (host_of_authority a) e) \/
+  (exists s, names = None /\ sni = Some s /\ map lower (strip_port a) = s).
+Proof.
+  unfold strict_decision. destruct strict; [|auto]. destruct sni as [s|]; [|auto]. destruct names as [ns|].
+  - intros H. right; right; left. pose proof (authority_matched_spec a ns) as M.
+    destruct (authority_matched a ns) as [e|]; [|discriminate]. exists ns, e. destruct M; auto.
+  - intros H. right; right; right. exists s. split; [reflexivity|]. split; [reflexivity|].
+    apply authority_matches_sni_spec; exact H.
+Qed.
+
+Lemma strict_decision_rejects strict sni names a :
+  strict_decision strict sni names a = false ->
+  strict = true /\ exists s, sni = Some s /\
+    match names with
+    | Some ns => host_of_authority a = [] \/ forall e, In e ns -> ~ covers_spec (host_of_authority a) e
+    | None => map lower (strip_port a) <> s
+    end.
+Proof.
+  unfold strict_decision. destruct strict; [|discriminate]. destruct sni as [s|]; [|discriminate].
+  intros H. split; [reflexivity|]. exists s. split; [reflexivity|]. destruct names as [ns|].
+  - pose proof (authority_matched_spec a ns) as M. destruct (authority_matched a ns); [discriminate|exact M].
+  - intros E. apply authority_matches_sni_spec in E. congruence.
+Qed.
+
